@@ -3,6 +3,7 @@ package goat
 import (
 	"fmt"
 	"os"
+	"path/filepath"
 	"slices"
 	"sync"
 	"sync/atomic"
@@ -289,7 +290,7 @@ func (p *PatchExecutor) apply() error {
 		// remove goat package if empty, as clean does
 		if empty, err := utils.IsDirEmpty(p.cfg.GoatPackagePath); err == nil && empty {
 			verifhook.Boundary("removeall", p.cfg.GoatPackagePath)
-			os.RemoveAll(p.cfg.GoatPackagePath)
+			os.RemoveAll(filepath.Clean(p.cfg.GoatPackagePath))
 		}
 		return nil
 	}
